@@ -52,9 +52,6 @@ Qed.
 Lemma WF_peer m a p : WFm m -> pget (m_peers m) a = Some p -> PWF (length (m_plens m)) p.
 Proof. intros [_ HP] E. exact (Forall_pget _ _ a p HP E). Qed.
 
-Definition valid_pick (m : mgr) (pick : option N) : Prop :=
-  match pick with Some c => (N.to_nat c < length (m_plens m))%nat | None => True end.
-
 (* what the tasks guarantee about the commands they send (discharged below for the composition) *)
 Definition sendable (m : mgr) (c : cmd) : Prop :=
   match c with
@@ -424,6 +421,24 @@ Proof.
 Qed.
 
 (* a chooser answer is always in range (pick_ok is what C13 proves of the chooser) *)
+(* ... hence in every state the manager can reach (MgrProofs.mreach: well-formed start, producible commands with chooser
+   answers in range, accepted connections, rotations, tracker answers) ... *)
+Theorem mreach_WF m : mreach m -> WFm m.
+Proof.
+  induction 1 as [st plens HL _|m a id _ IH Hf|m c pick m' r bc sp _ IH _ Hv Hs|m rates new_opt m' fl _ IH Hr|m peers _ IH|m a _ IH].
+  - apply WF_init. exact HL.
+  - change (WFm (with_peer m a (new_peer id (length (m_plens m))))). apply WF_with_peer; [exact IH|].
+    split; [apply repeat_length | intros i Hi; discriminate].
+  - eapply WF_step; eassumption.
+  - eapply WF_rotation; eassumption.
+  - apply WF_tracker_resp. exact IH.
+  - apply accept_WF. exact IH.
+Qed.
+(* ... so, over reachable states: on every command a task can send, with a chooser answer in range, the manager returns Ok *)
+Theorem reachable_manager_handles m c pick : mreach m -> deliverable m c -> valid_pick m pick ->
+  exists m' rep bc sp, mstep m c pick = Ok (m', rep, bc, sp).
+Proof. intros R. apply manager_handles. apply mreach_WF. exact R. Qed.
+
 Lemma pick_ok_valid m p pick : WFm m -> pick_ok m p pick = true -> valid_pick m pick.
 Proof.
   intros [HL _] H. destruct pick as [c|]; [|exact I]. cbn [valid_pick]. unfold pick_ok in H.
